@@ -31,6 +31,21 @@ void walk(AdaptiveHuffmanTree& t, const RefHuff& r, unsigned libNode, int refNod
 	walk(t, r, t.GetChildNode(uint16_t(libNode), true), r.child(refNode, true), depth + 1, shape, seenDepth, nodes, ctx);
 }
 
+// The way a compressor uses the tree: only the symbol about to be coded is asked for (no other query in between).  Its bit string, read in ONE
+// bit order for the whole history (order: -1 undecided, 0 LSB-first, 1 MSB-first), must drive the walk from the root to the leaf holding it.
+void single_symbol_check(AdaptiveHuffmanTree& t, int sym, int& order, const std::string& ctx) {
+	unsigned bc = 0; unsigned bits = t.GetEncodedBitString(uint16_t(sym), bc);
+	V_CHECK(bc >= 1 && bc <= 32, "encoded length " << bc << " of symbol " << sym << " " << ctx);
+	bool ok[2];
+	for (int o = 0; o < 2; ++o) {
+		unsigned node = t.GetRootNodeIndex(); bool good = true;
+		for (unsigned k = 0; k < bc && good; ++k) { if (t.IsLeaf(uint16_t(node))) { good = false; break; } bool bit = o == 0 ? ((bits >> k) & 1) : ((bits >> (bc - 1 - k)) & 1); node = t.GetChildNode(uint16_t(node), bit); }
+		ok[o] = good && t.IsLeaf(uint16_t(node)) && t.GetNodeData(uint16_t(node)) == sym;
+	}
+	if (order < 0) { V_CHECK(ok[0] || ok[1], "the bit string of symbol " << sym << " (" << bits << "/" << bc << ") does not lead to its leaf in either bit order " << ctx); if (ok[0] != ok[1]) order = ok[0] ? 0 : 1; }
+	else V_CHECK(ok[order], "the bit string of symbol " << sym << " (" << bits << "/" << bc << ") does not lead to its leaf (bit order as established earlier in this history) " << ctx);
+}
+
 Snap check_tree(AdaptiveHuffmanTree& t, const RefHuff& r, const std::string& ctx) {
 	Snap s;
 	std::vector<int> seenDepth(r.n, -1); unsigned nodes = 0;
@@ -108,8 +123,12 @@ void run_case(Tape& t, Stats& st) {
 	std::string ctx = "[n=" + std::to_string(n) + " dist=" + std::to_string(dist) + " len=" + std::to_string(len) + "]";
 	Snap prev = check_tree(tree, ref, ctx + " initial");
 	bool shapeChanged = false; uint64_t h = hmix(n, dist);
+	// half of the histories are driven the way a compressor drives the tree: before each update only THAT symbol's bit string is asked for, and the
+	// whole-tree comparison (which asks for every symbol) runs only at the end
+	const bool encoderStyle = (state >> 13) & 1; int order = -1; if (encoderStyle) { every = len + 1; st.cls("encoder_style_history"); }
 	for (unsigned i = 0; i < len; ++i) {
 		int sym = next_symbol(dist, n, i, t, state);
+		if (encoderStyle) single_symbol_check(tree, sym, order, ctx + " before update " + std::to_string(i));
 		if ((i & 63) == 17 && (state >> 5) % 3 == 0) {   // a refused call in the middle of the history: afterwards everything goes on as if it had not been made
 			unsigned bad = (state >> 9) % 4 == 0 ? 65535u : (state >> 9) % 4 == 1 ? unsigned(65536 - n) : unsigned(n + (state >> 11) % 3);
 			V_CHECK(guarded([&] { tree.UpdateCodeCount(uint16_t(bad)); }) == Out::Err, "update with out-of-range symbol " << bad << " accepted in mid-history " << ctx);
@@ -248,6 +267,14 @@ void run_sweep(Stats& st) {
 	if (g_thorough) for (unsigned n : {4u, 5u, 17u, 100u, 313u}) { if (!sw("capacity", n, 2)) continue; capacity_run(n, 2, st); }
 	{ const unsigned plan[][3] = {{2, 1, 1}, {3, 2, 7}, {314, 2, 40}, {314, 1, 3}}; for (auto& q : plan) { if (!sw("capacity_after_refusals", q[0], q[1], q[2])) continue; capacity_run(q[0], q[1], st, q[2]); } }
 	for (unsigned n : {24u, 40u, 100u, 314u}) for (unsigned order = 0; order < 2; ++order) { if (!sw("deep", n, order)) continue; deep_run(n, order, st); }
+	// compressor-style runs (code the symbol, then update it; nothing else is asked) of 20000 steps: round robin, skewed, and a text-like mixture
+	for (unsigned n : {2u, 3u, 17u, 256u, 314u}) for (unsigned pat = 0; pat < 3; ++pat) {
+		if (!sw("encoder_style", n, pat)) continue;
+		AdaptiveHuffmanTree tree{uint16_t(n)}; RefHuff ref{int(n)}; int order = -1; uint64_t q = 0x9E3779B97F4A7C15ULL + n * 31 + pat; std::string ctx = "[encoder-style run n=" + std::to_string(n) + " pattern=" + std::to_string(pat) + "]";
+		for (unsigned i = 0; i < 20000; ++i) { q ^= q << 13; q ^= q >> 7; q ^= q << 17; int sym = pat == 0 ? int(i % n) : pat == 1 ? int(std::min((q >> 20) % n, (q >> 40) % n)) : int(((q >> 16) % 7 == 0 ? (q >> 24) % n : (q >> 30) % std::min(n, 12u)));
+			single_symbol_check(tree, sym, order, ctx + " step " + std::to_string(i)); tree.UpdateCodeCount(uint16_t(sym)); ref.update(sym); }
+		check_tree(tree, ref, ctx + " at the end");
+	}
 	for (unsigned n : {2u, 3u, 5u, 314u}) for (unsigned lead : {127u, 128u, 255u, 256u, 32766u, 32767u, 32768u, 32769u, 33100u, 40000u, 65000u}) { if (lead + n + 40 > 65535) continue; if (!sw("hot_cold", n, lead)) continue; hot_cold_run(n, (n * 3 / 4) % n, lead, st); }
 	st.exhaustive = true;
 }
